@@ -18,7 +18,7 @@ EXPLANATION = (
 ASSUMPTIONS = ["pika::detail::throws_if returns normally when the caller passed its own error_code",
                "util::yield_while(f) returns only when f() returned false"]
 THOROUGH_CONFIGS = [["-UNDEBUG", "-DPIKA_DEBUG"]]
-FLOORS = {"C19.R1": 6, "C19.R2": 5, "C19.R3": 4, "C19.R4": 9, "C19.R5": 3}
+FLOORS = {"C19.R1": 6, "C19.R2": 5, "C19.R3": 4, "C19.R4": 9, "C19.R5": 3, "C19.R6": 3}
 
 POOL = r"^pika::threads::detail::scheduled_thread_pool::"
 STATE_CHANGERS = {"suspend_internal", "suspend_processing_unit_internal", "resume_internal", "resume_processing_unit_direct",
@@ -35,6 +35,10 @@ def run(rep, tier):
     rep.rule("C19.R2", "K5/K2: PU state running->pre_sleep by CAS under the PU mutex then wait; suspend(): store sleeping -> wait -> CAS sleeping->running; resume loops until not sleeping")
     rep.rule("C19.R3", "K7: scheduling_loop calls scheduler.suspend only in pre_sleep with !running, terminated cleaned, queue length 0; get_next_thread gets 'running'")
     rep.rule("C19.R4", "K6: create_thread/schedule_thread/schedule_thread_last pick the worker via select_active_pu before enqueuing")
+    rep.rule("C19.R6", "K6 (what blocks the sleep must be runnable by the sleeper): a worker that is being suspended (pre_sleep: 'running' is false) goes to sleep only "
+             "when get_queue_length(its number) is 0.  Every queue member that get_queue_length(num_thread) counts is therefore popped by get_next_thread(num_thread, ..) "
+             "on a path that does not require 'running' - otherwise a task that arrives in such a queue while the worker is in pre_sleep can neither be run by it nor "
+             "let it sleep, and suspend_processing_unit / suspend never return")
     rep.rule("C19.R5", "K2: suspend_internal drains (thread count 0) before moving PUs to pre_sleep and suspending each; resume_internal resumes every PU")
 
     F = facts(rep, lib("thread_pools", "src/scheduled_thread_pool.cpp"),
@@ -380,6 +384,8 @@ def run(rep, tier):
             rep.bad("C19.R5", fn, fn.loc, "no-suspend", "suspend_direct never suspends")
 
 
+    sleep_blockers_rule(rep)
+
 def conj_atoms(e):
     e = strip(e)
     if isinstance(e, dict) and e.get("k") == "bin" and e["op"] == "&&":
@@ -403,3 +409,47 @@ def expand(fn, fb, pos, depth=3):
             break
         out |= add
     return out
+
+
+def sleep_blockers_rule(rep):
+    from engine.kinds import derives_from
+    SP_ = facts(rep, lib("thread_pools", "src/scheduled_thread_pool.cpp"),
+                [r"::(local_priority_queue_scheduler|local_queue_scheduler|static_queue_scheduler|static_priority_queue_scheduler)::(get_next_thread|get_queue_length)$"])
+    byclass = {}
+    for f in SP_.fns:
+        if not f.pattern and f.parent == -1:
+            byclass.setdefault(f.full.rsplit("::", 1)[0], {}).setdefault(f.qname.rsplit("::", 1)[-1], []).append(f)
+    n = 0
+    for cls, fs_ in sorted(byclass.items()):
+        gl = [f for f in fs_.get("get_queue_length", []) if any("size_t" in str(p_.get("type", "")) or "long" in str(p_.get("type", "")) for p_ in f.params)]
+        gn = fs_.get("get_next_thread", [])
+        if not gl or not gn:
+            continue
+        g = gn[0]
+        counted = set()
+        for f in gl:
+            for _, _, e in f.all_events():
+                if e.get("k") == "call" and callee_short(e) in ("get_queue_length", "get_pending_queue_length", "get_staged_queue_length") and e.get("recv") is not None and P(e["recv"]) != "this":
+                    m = re.match(r"^this->(\w+)", P(e["recv"]))
+                    if m:
+                        counted.add(m.group(1))
+        if not counted:
+            continue
+        runp = [q["name"] for q in g.params if (q.get("type") or "").strip() == "bool"]
+        if not runp:
+            raise AnalysisBroken("%s::get_next_thread: the 'running' parameter was not identified" % cls)
+        running = runp[0]
+        ffg = FactFlow(g, eh=False)
+        is_pop = lambda e: e.get("k") == "call" and callee_short(e) == "get_next_thread" and e.get("recv") is not None and P(e["recv"]) != "this"
+        for m in sorted(counted):
+            mine = [(b, i, e) for b, i, e in g.all_events() if is_pop(e) and derives_from(g, e["recv"], lambda t, m=m: ("this->" + m) in t)]
+            free = [(b, i, e) for b, i, e in mine if (running, True) not in (ffg.before.get((b, i)) or frozenset())]
+            n += 1
+            if free:
+                rep.ok("C19.R6", g, "%s (counted by get_queue_length) is popped without requiring '%s' (%d of %d pop sites)" % (m, running, len(free), len(mine)))
+            else:
+                rep.bad("C19.R6", g, loc_of(mine[0][2]) if mine else g.loc, "sleep-blocked-by:" + m, "%s: get_queue_length(num_thread) counts %s, but get_next_thread pops it %s: a task "
+                        "that arrives there while the worker is in pre_sleep (running == false) can neither be run by that worker nor let it reach queue length 0 - the worker spins in "
+                        "pre_sleep for ever and the suspend call that waits for it never returns" % (cls.rsplit("::", 1)[-1], m, "only after the test of '%s'" % running if mine else "nowhere"))
+    if n < 3:
+        raise AnalysisBroken("C19.R6 examined only %d (scheduler, queue member) pairs" % n)
